@@ -4,6 +4,7 @@ import Qsx.Model.LinAlg
 import Qsx.Model.Xform
 import Qsx.Model.Round
 import Qsx.Model.SolFile
+import Qsx.Model.Cap
 import Qsx.Model.Multi
 import Qsx.Model.Driver
 import Qsx.Model.Num
@@ -423,6 +424,25 @@ def answer (cx : Ctx) (toks : List String) : Ctx × List String :=
       let parts ← pMany n pName
       let t := Qsx.SolFile.ftypeOf (f != 0) (parts.toList.map (fun (o : Option String) => o.getD ""))
       pure [if t == Qsx.SolFile.FType.lp then "ftype lp" else "ftype mps"]).run' rest
+    (cx, r.getD ["bad-op"])
+  | "cap" :: rest =>
+    -- C17: cap <nrows ncols nstruct matcols rowsize colsize structsize matcolsize> n {r | c | dr k | dc k}*n
+    let r : Option (List String) := (do
+      let a ← pMany 8 pNat
+      let s0 : Qsx.Cap.S := { nrows := a[0]!, ncols := a[1]!, nstruct := a[2]!, matcols := a[3]!, rowsize := a[4]!, colsize := a[5]!,
+                              structsize := a[6]!, matcolsize := a[7]! }
+      let n ← pNat
+      let ops ← pMany n (do
+        let k ← pTok
+        if k == "r" then pure Qsx.Cap.Op.addRow
+        else if k == "c" then pure Qsx.Cap.Op.addCol
+        else if k == "dr" then (do let m ← pNat; pure (Qsx.Cap.Op.delRows m))
+        else if k == "dc" then (do let m ← pNat; pure (Qsx.Cap.Op.delCols m))
+        else failure)
+      let (_, out) := ops.foldl (fun (acc : Qsx.Cap.S × List String) o =>
+        let s' := (Qsx.Cap.step acc.1 o).1
+        (s', acc.2 ++ [s!"s {s'.nrows} {s'.ncols} {s'.nstruct} {s'.matcols} {s'.rowsize} {s'.colsize} {s'.structsize} {s'.matcolsize}"])) (s0, [])
+      pure out).run' rest
     (cx, r.getD ["bad-op"])
   | "tointernal" :: rest =>
     let r : Option (List String) := (do
